@@ -8,6 +8,8 @@ import PsV.Driver.Eval
 import PsV.Driver.C15
 import PsV.Driver.C12
 import PsV.Driver.C14
+import PsV.Driver.C17
+import PsV.Driver.C09
 open PsV.Driver
 
 def stateless (f : List String → String) : IO Unit := do
@@ -22,7 +24,9 @@ def drivers : List (String × IO Unit) :=
    ("C19", stateless C19.handle),
    ("C14", C14.run),
    ("C13", stateless C13.handle),
-   ("C18", C18.run)]
+   ("C18", C18.run),
+   ("C17", stateless C17.handle),
+   ("C09", C09.run)]
 
 def main (args : List String) : IO UInt32 := do
   match args with
